@@ -18,6 +18,7 @@ pub mod c14;
 pub mod c15;
 pub mod c16;
 pub mod c17;
+pub mod c17x;
 pub mod c18;
 pub mod c19;
 pub mod c20;
